@@ -205,12 +205,12 @@ func (c *Converter) fromSingleFile(name string) ([]byte, error) {
 	c.filtersL.RUnlock()
 	res, err := c.fromReader(bytes.NewReader(b), name, filters)
 	if errors.Is(err, errNoConverter) { /* That's ok. */
-		res = b
+		return b, nil
 	} else if nil != err {
 		return nil, fmt.Errorf("converting: %w", err)
 	}
 
-	return res, err
+	return res, nil
 }
 
 // fromReader converts b using the first filter which matches fn.
